@@ -3,13 +3,23 @@ import impl
 
 # the last five: an operator word glued to the rest by a key character, numbers written in two ways
 WORDS = ['a', 'b', 'c', 'gpl', '2.0', 'mit', 'gnu', 'later', 'x', 'v2', '+', 'lgpl-2.1', 'bsd', 'foo',
-         'or-later', 'with:x', 'and+', 'gpl-10', 'gpl-02', 'LicenseRef-acme-1.0']
+         'or-later', 'with:x', 'and+', 'gpl-10', 'gpl-02', 'LicenseRef-acme-1.0', 'file']
 OPWORDS = ['and', 'or', 'with']
 # the last two: letters that str.lower() leaves alone and casefold() / NFKC do not (fi ligature, final sigma)
 ODDWORDS = ['\u0130x', '\u01c5', 'Stra\xdfe', '\xc9t\xe9', '\u03a9m', '\ufb01le', '\u03bf\u03c2']
 # characters that are not allowed in a key; the last four have no Unicode name (controls, private use, noncharacter)
 BADWORDS = ['a$', 'b/c', 'x&y', '*', 'mit\x07', 'gpl\x7f2.0', '\x9bbar', '\ue000x', 'y\ufffe']
 BLANKS = impl.WS
+
+
+def compat_twin(word):
+    """the word with a letter pair or a digit replaced by its Unicode compatibility form (fi ligature, fullwidth 2): another
+    word to str.lower(), the same word after NFKC; None when there is nothing to replace"""
+    if 'fi' in word:
+        return word.replace('fi', '\ufb01', 1)
+    if '2' in word:
+        return word.replace('2', '\uff12', 1)
+    return None
 
 
 def blank_run(rng, simple=False):
